@@ -9,6 +9,10 @@ integer semantics of `CnlModel.CInt` (promotion, usual arithmetic conversions, w
 arithmetic, undefined shifts / signed overflow).  Width, signedness and exponent of the format are
 arguments.  Everything is structural: `decide +kernel` can evaluate the model.
 
+`exp2` / `exp2With` follow the code as repaired (by-value test `fp::not_above_exponent`; negative inputs of positive-exponent formats
+return zero before `floor(x)` is converted to `Rep`); `exp2Orig` / `exp2WithOrig` are the as-found definitions, refuted in
+`CnlProperties.C20` from the witnesses of the two findings.
+
 The coefficient table used by the model is the one the real compiler prints from the headers *now*
 (`CnlModel.Generated.Exp2Coeffs`, rewritten on every run of the check); `derivedCoeffs` re-derives the
 same numbers inside Lean from the decimal literals of `poly_coeffs` (decimal → binary64 → `rounding_conversion`),
@@ -263,24 +267,52 @@ def exp2m1 (f : Fmt) (cs : List Nat) (frac : Int) : Res TV :=
 /-- representation type of the value `exp2m1_0to1` returns -/
 def polyTy (f : Fmt) : IntTy := if f.exp ≥ 0 then i32 else f.urep
 
-/-- `fp::exp2<im>(x, floored)` followed by the conversion to the return type; result = rep of `exp2(x)` -/
+/-- the arm of `fp::exp2<im>(x, floored)` that evaluates the polynomial, followed by the conversion to the return type `C → Rep` -/
+def exp2Tail (cs : List Nat) (f : Fmt) (C : IntTy) (rep fl : Int) : Res Int :=
+  let R := f.rep
+  fractional f rep fl >>=? fun frac =>
+  exp2m1 f cs frac >>=! fun poly =>
+  cBinF .sub (i32, (f.bits : Int) + f.exp) (R, fl) >>=! fun cnt =>     -- −(−W) + E − floored
+  cBinF .shr poly cnt >>=! fun sh =>
+  cBinF .sub (R, fl) (i32, f.exp) >>=! fun k =>                          -- floored − E
+  cBinF .shl (R, 1) k >>=! fun one =>
+  cBinF .add sh one >>=! fun sum =>
+  .ok (wrapF R (wrapF C sum.2))
+
+/-- common type of the two arms of the conditional in `fp::exp2` (`uRep{1}` and the sum), by the usual conversions -/
+def armTy (f : Fmt) : IntTy := usualArith f.urep (usualArith (promote (polyTy f)) (promote f.rep))
+
+/-- `fp::not_above_exponent<Exponent>(floored)`: `floored <= Exponent` by value — `false` at compile time for an unsigned
+`Rep` and a negative `Exponent`, the built-in comparison (value preserving in every remaining case) otherwise -/
+def notAbove (f : Fmt) (fl : Int) : Bool :=
+  if f.exp < 0 ∧ f.signed = false then false else cLeF (f.rep, fl) (i32, f.exp)
+
+/-- `cnl::exp2` as repaired (`fix:` commits of C20): result = rep of `exp2(x)`.
+* `Exponent > 0` and `x < 0`: returns zero before `floor(x)` is converted to `Rep` (the integer part `rep·2^E` need not fit);
+* `fp::exp2<im>(x, floored)`: the test `floored <= Exponent` is made by value (`notAbove`). -/
 def exp2With (cs : List Nat) (f : Fmt) (rep : Int) : Res Int :=
   let R := f.rep
+  if f.exp > 0 ∧ rep < 0 then .ok 0 else
   floored f rep >>=? fun fl =>
-  -- the arms of the conditional: `uRep{1}` and the sum below; common type by the usual conversions
-  let C := usualArith f.urep (usualArith (promote (polyTy f)) (promote R))
-  if cLeF (R, fl) (i32, f.exp) then .ok (wrapF R (wrapF C 1))
-  else
-    fractional f rep fl >>=? fun frac =>
-    exp2m1 f cs frac >>=! fun poly =>
-    cBinF .sub (i32, (f.bits : Int) + f.exp) (R, fl) >>=! fun cnt =>     -- −(−W) + E − floored
-    cBinF .shr poly cnt >>=! fun sh =>
-    cBinF .sub (R, fl) (i32, f.exp) >>=! fun k =>                          -- floored − E
-    cBinF .shl (R, 1) k >>=! fun one =>
-    cBinF .add sh one >>=! fun sum =>
-    .ok (wrapF R (wrapF C sum.2))
+  let C := armTy f
+  if notAbove f fl then .ok (wrapF R (wrapF C 1))
+  else exp2Tail cs f C rep fl
 
 /-- the model of `cnl::exp2` on the format `f` with the coefficients the headers contain now -/
 def exp2 (f : Fmt) (rep : Int) : Res Int := exp2With (coeffs f.bits) f rep
+
+/-! ## as found (before the two repairs) -/
+
+/-- `cnl::exp2` AS FOUND: `static_cast<Rep>(floor(x))` is evaluated for every `x` (wraps or overflows for a positive `Exponent`
+when `rep·2^E` is outside `Rep`), and `floored <= Exponent` is the built-in comparison: for `Rep = uint32_t / uint64_t` the
+negative `int` Exponent is converted to unsigned and the test is always true. -/
+def exp2WithOrig (cs : List Nat) (f : Fmt) (rep : Int) : Res Int :=
+  let R := f.rep
+  floored f rep >>=? fun fl =>
+  let C := armTy f
+  if cLeF (R, fl) (i32, f.exp) then .ok (wrapF R (wrapF C 1))
+  else exp2Tail cs f C rep fl
+
+def exp2Orig (f : Fmt) (rep : Int) : Res Int := exp2WithOrig (coeffs f.bits) f rep
 
 end Cnl.Exp2
